@@ -16,6 +16,7 @@ import (
 	"github.com/enbility/ship-go/cert"
 	"github.com/enbility/ship-go/logging"
 	"github.com/enbility/ship-go/ship"
+	"github.com/enbility/ship-go/util"
 	"github.com/enbility/ship-go/ws"
 	"github.com/gorilla/websocket"
 )
@@ -440,6 +441,7 @@ func (h *Hub) getConnectionInitiationDelayTime(ski string) (int, time.Duration) 
 
 	// #nosec G404
 	duration := rand.Intn(max-min) + min
+	duration = util.VerifDelayMs(duration)
 
 	return counter, time.Duration(duration) * time.Millisecond
 }
